@@ -1984,3 +1984,31 @@ mod tests {
     assert!(reader.matched_writer(writer_guid).is_none());
   }
 }
+
+// ---- verification accessors (add-only, cfg(rustdds_verif)) -- gate rig (C17)
+#[cfg(rustdds_verif)]
+impl Reader {
+  /// Sequence numbers out of `candidates` that some writer proxy of this
+  /// reader knows as received or not available.
+  pub(crate) fn verif_known_sns(&self, candidates: &[i64]) -> Vec<i64> {
+    candidates
+      .iter()
+      .copied()
+      .filter(|sn| {
+        self
+          .matched_writers
+          .values()
+          .any(|p| p.should_ignore_change(SequenceNumber::new(*sn)))
+      })
+      .collect()
+  }
+
+  /// Last accepted HEARTBEAT count of every writer proxy.
+  pub(crate) fn verif_hb_counts(&self) -> Vec<i32> {
+    self
+      .matched_writers
+      .values()
+      .map(|p| p.received_heartbeat_count)
+      .collect()
+  }
+}
